@@ -403,6 +403,10 @@ pub enum E {
     Nest(Box<Inner>),
     /// table-valued fields declared before scalar ones (TOML writes the scalars first)
     Rec { inner: Inner, list: Vec<Inner>, m: BTreeMap<String, i32>, n: i32, s: String },
+    /// a tuple variant all of whose fields are tables (becomes `[[x.Seg]]` in header form)
+    Seg(Inner, Inner),
+    /// many fields, declared in no particular order
+    Wide { zeta: i32, alpha: String, mid: bool, beta: i64, omega: Option<String>, gamma: Vec<i32> },
 }
 
 #[derive(Serialize, Deserialize, Debug, Clone)]
@@ -654,7 +658,9 @@ pub fn g_inner(t: &mut Tape) -> Inner {
     Inner { x: g_i32(t), y: if t.chance(1, 2) { Some(g_string(t)) } else { None } }
 }
 pub fn g_e(t: &mut Tape) -> E {
-    match t.below(11) {
+    match t.below(13) {
+        11 => E::Seg(g_inner(t), g_inner(t)),
+        12 => E::Wide { zeta: g_i32(t), alpha: g_string(t), mid: t.chance(1, 2), beta: crate::scalars::gen_int(t), omega: g_opt(t, g_string), gamma: g_vec(t, 3, g_i32) },
         10 => E::Rec { inner: g_inner(t), list: g_vec(t, 2, g_inner), m: g_map(t, 2, g_i32), n: g_i32(t), s: g_string(t) },
         8 => E::Pair(gen_int(t), gen_int(t)),
         9 => E::Trio(g_string(t), g_string(t), g_string(t)),
